@@ -84,13 +84,16 @@ type TaskResult struct {
 	Samples      []Sample
 	MaxPC        int
 	Witnesses    []Violation
+	Fallbacks    int64 // assertion verdicts obtained from a second solver after the first answered unknown
 	Repairs      int64 // sat answers found by model repair + evaluation instead of the solver
 }
 
 type Engine struct {
-	prog *ssa.Program
-	pkg  *ssa.Package
-	cfg  Config
+	cappedRetries int
+	fallbacks     int
+	prog          *ssa.Program
+	pkg           *ssa.Package
+	cfg           Config
 
 	mu       sync.Mutex
 	cond     *sync.Cond
